@@ -64,6 +64,10 @@ def gen_plan(seed, tier):
             perms.append({'variant': variant, 'order': order})
         perms[0] = {'variant': 'A', 'order': list(range(len(conf)))}
         plan['perms'] = perms
+        # a solver that has already been run (the same few steps from the same start in every variant) before it is
+        # reconfigured: the order of the Set* calls made for the second run must not matter either
+        r2 = sub_rng(seed, 'plan.c07.prerun')
+        if r2.random() < 0.35 and conf and conf[0]['what'] == 'init': plan['prerun'] = r2.randint(1, 4)
         return plan
     if kind == 'de2':
         knobs = dict(PERM_KNOBS, solvers=['DE2'], p_bounds=0.7, p_monitors=0.7)
@@ -135,6 +139,8 @@ def run_perm(plan, run, violate, stats):
         run.fs.subdir = 'perm%d' % pi
         h = engine.Harness(run, plan, [])
         h.build()
+        if plan.get('prerun'):
+            h.do(conf[0]); h.do({'op': 'step', 'n': plan['prerun']}); run.probe('c07.reused_solver')
         for idx in perm['order']:
             op = conf[idx]
             if perm['variant'] == 'B' and op['what'] == 'init': h.do({'op': 'reseed'})
@@ -160,7 +166,7 @@ def run_perm(plan, run, violate, stats):
                 if dd: dd = 'step %d: %s' % (k + 1, dd); break
             violate('trajectory_depends_on_setter_order', 'variant %s: Set* order %r vs %r (%s) give different trajectories: %s'
                     % (key, [conf[i]['what'] for i in plan['perms'][p0]['order']], [conf[i]['what'] for i in perm['order']],
-                       perm['variant'], (dd or d)[:300]), variant=key, where=plan['solver'])
+                       perm['variant'], (dd or d)[:300]), variant=key, where=plan['solver'], reused=bool(plan.get('prerun')))
             return
 
 
